@@ -42,6 +42,7 @@ WHITELIST = [
     dict(cls=None, fn="mem_put_le16"),
     dict(cls=None, fn="mem_put_le24"),
     dict(cls=None, fn="ans_write_end"),
+    dict(cls="RAnsDecoder", fn="read_init", targs=[12]),
     dict(cls=None, fn="DecodeVarintUnsigned", params=["int", "unsigned int *", "draco::DecoderBuffer *"], suffix="_depthCheck_u32",
          slice=dict(scope="body", first_decl="max_depth", count=2)),
     dict(cls=None, fn="DecodeVarintUnsigned", params=["int", "unsigned long *", "draco::DecoderBuffer *"], suffix="_depthCheck_u64",
@@ -105,6 +106,7 @@ template uint32_t ConvertSignedIntToSymbol<int32_t>(int32_t);
 template int32_t ConvertSymbolToSignedInt<uint32_t>(uint32_t);
 template int32_t AddAsUnsigned<int32_t>(int32_t, int32_t);
 template class RAnsSymbolEncoder<12>;
+template class RAnsDecoder<12>;
 template bool DecodeVarint<uint32_t>(uint32_t *, DecoderBuffer *);
 template bool DecodeVarint<uint64_t>(uint64_t *, DecoderBuffer *);
 template bool EncodeVarint<uint32_t>(uint32_t, EncoderBuffer *);
@@ -386,7 +388,7 @@ class Index:
             p = self.parent.get(p.get("id"))
         return p
 
-    def find_function(self, cls, fn, params):
+    def find_function(self, cls, fn, params, targs=None):
         hits = []
         seen = set()
         for i, n in self.byid.items():
@@ -414,6 +416,11 @@ class Index:
                         continue        # the dependent pattern
                 elif par.get("kind") != "ClassTemplateSpecializationDecl":
                     continue
+                if targs is not None:
+                    got = [str(c.get("value")) if "value" in c else repr(parse_type(c["type"].get("desugaredQualType") or c["type"]["qualType"]))
+                           for c in par.get("inner", []) if c.get("kind") == "TemplateArgument"]
+                    if got != [str(x) for x in targs]:
+                        continue
             ptys = [repr(node_type(c)) for c in n.get("inner", []) if c.get("kind") == "ParmVarDecl"]
             if params is not None and ptys != [repr(parse_type(p)) for p in params]:
                 continue
@@ -551,8 +558,18 @@ class Translator:
         if not ints and len(bases) == 1:
             bt = bases[0]["type"]
             return self.struct_class(self.ix.find_class_by_type(bt.get("desugaredQualType") or bt["qualType"]))
-        objs = [c for c in own if node_type(c).kind == "class"]
-        if not ints and not bases and len(own) == 1 and len(objs) == 1:
+        objs = []
+        for c in own:
+            if node_type(c).kind == "class":
+                try:
+                    t0 = c["type"]
+                    inner0 = self.ix.find_class_by_type(t0.get("desugaredQualType") or t0["qualType"])
+                    if any(node_type(f).kind in ("int", "bool") for f in inner0.get("inner", []) if f.get("kind") == "FieldDecl"):
+                        objs.append(c)
+                except XlateError:
+                    pass
+        if not ints and not bases and len(objs) == 1:
+            own = objs
             # a wrapper around one member object (`octahedron_tool_box_`): `self` is that object
             t = own[0]["type"]
             inner = self.ix.find_class_by_type(t.get("desugaredQualType") or t["qualType"])
@@ -1072,9 +1089,13 @@ class FuncTranslator:
                 tgt = x["inner"][0]
             if tgt is not None:
                 t = _strip(tgt)
-                if t.get("kind") == "MemberExpr" and _strip(t["inner"][0]).get("kind") == "CXXThisExpr":
-                    if node_type(t).kind in ("int", "bool"):
-                        out.add(t["name"])
+                if t.get("kind") == "MemberExpr":
+                    o = _strip(t["inner"][0])
+                    if o.get("kind") == "CXXThisExpr" or (
+                            o.get("kind") == "MemberExpr" and o.get("name") in self.tr.delegate.values() and
+                            _strip(o["inner"][0]).get("kind") == "CXXThisExpr"):
+                        if node_type(t).kind in ("int", "bool"):
+                            out.add(t["name"])
             for c in x.get("inner", []) or []:
                 if isinstance(c, dict):
                     walk(c)
@@ -1166,7 +1187,9 @@ class FuncTranslator:
                 if loc in ctx.types:
                     return loc
                 self.fail(f"field `{n['name']}` of the structure parameter is not an integer field", n)
-            if obj.get("kind") == "CXXThisExpr":
+            if obj.get("kind") == "CXXThisExpr" or (
+                    obj.get("kind") == "MemberExpr" and obj.get("name") in self.tr.delegate.values() and
+                    _strip(obj["inner"][0]).get("kind") == "CXXThisExpr"):
                 loc = "f:" + n["name"]
                 if loc in ctx.types:
                     return loc
@@ -1219,6 +1242,10 @@ class FuncTranslator:
             return self.assign(ctx, base, new, lines)
         if ctx.loop_outer is not None and loc in ctx.loop_outer and loc[:2] in ("v:", "d:", "f:"):
             self.fail(f"the loop body assigns `{ctx.names[loc]}` declared outside the loop (loop-carried value)")
+        if loc.startswith("f:") and loc[2:] not in self.assigned_fields:
+            self.fail(f"internal: assignment to the field `{loc[2:]}` that was not recognised as an output")
+        if loc.startswith("g:") and loc.split(":")[2] not in self.assigned_sfields.get(loc.split(":")[1], ()):
+            self.fail(f"internal: assignment to the structure field `{loc}` that was not recognised as an output")
         t = ctx.types[loc]
         if t.const and ctx.vals.get(loc) is not None and not loc.startswith(("pe:", "fe:")):
             self.fail(f"assignment to const `{ctx.names[loc]}`")
@@ -1479,6 +1506,10 @@ class FuncTranslator:
             l0 = _strip(s["inner"][0])
             if l0.get("kind") == "MemberExpr":
                 o = _strip(l0["inner"][0])
+                if o.get("kind") == "CXXThisExpr" or (o.get("kind") == "MemberExpr" and o.get("name") in self.tr.delegate.values()
+                                                      and _strip(o["inner"][0]).get("kind") == "CXXThisExpr"):
+                    ctx.bptr[f"fp:{l0['name']}"] = self.ev_bptr(s["inner"][1], ctx)
+                    return
                 if o.get("kind") == "DeclRefExpr" and o["referencedDecl"]["id"] in self.sptr:
                     # `ans->buf = buf`: the pointer field is not represented; later reads through it resolve here
                     ctx.bptr[f"gp:{o['referencedDecl']['id']}:{l0['name']}"] = self.ev_bptr(s["inner"][1], ctx)
@@ -1574,6 +1605,8 @@ class FuncTranslator:
             if loc in ctx.bptr:
                 return ctx.bptr[loc]
             self.fail("pointer that is not a byte pointer parameter or local", n)
+        if k == "MemberExpr" and f"fp:{n.get('name')}" in ctx.bptr:
+            return ctx.bptr[f"fp:{n['name']}"]
         if k == "MemberExpr":
             obj = _strip(n["inner"][0])
             if obj.get("kind") == "DeclRefExpr" and obj["referencedDecl"]["id"] in self.sptr and self._is_bptr_type(node_type(n)):
@@ -1883,8 +1916,12 @@ class FuncTranslator:
         if k == "ConstantExpr" and "value" in n and node_type(n).kind == "int" and re.fullmatch(r"-?\d+", str(n["value"])):
             v = int(n["value"])
             return (str(v) if v >= 0 else f"({v})"), node_type(n)
-        if k in ("ParenExpr", "ExprWithCleanups", "MaterializeTemporaryExpr", "ConstantExpr", "CXXBindTemporaryExpr",
-                 "SubstNonTypeTemplateParmExpr"):
+        if k == "SubstNonTypeTemplateParmExpr":
+            ex = [c for c in n.get("inner", []) if c.get("kind") and not c["kind"].endswith("Decl")]
+            if len(ex) != 1:
+                self.fail("substituted template parameter", n)
+            return self.ev(ex[0], ctx)
+        if k in ("ParenExpr", "ExprWithCleanups", "MaterializeTemporaryExpr", "ConstantExpr", "CXXBindTemporaryExpr"):
             return self.ev(n["inner"][0], ctx)
         if k == "IntegerLiteral":
             return n["value"], node_type(n)
@@ -1967,8 +2004,14 @@ class FuncTranslator:
             if rk == "VarDecl" and n.get("nonOdrUseReason") == "constant" and node_type(n).kind == "bool" and \
                     ("v:" + n["referencedDecl"]["id"]) not in ctx.types and n["referencedDecl"]["id"] not in ctx.alias:
                 return ("true" if self.tr.trait_value(n, self.decl) else "false"), CT("bool")
+            if rk == "VarDecl" and ("v:" + n["referencedDecl"]["id"]) not in ctx.types and \
+                    n["referencedDecl"]["id"] not in ctx.alias and node_type(n).kind == "int" and node_type(n).const:
+                return self.static_const(n, ctx)
             loc = self.lvalue(n, ctx)
             return self.read(ctx, loc, n), ctx.types[loc]
+        if k == "MemberExpr" and n.get("referencedMemberDecl") in self.ix.byid and \
+                self.ix.byid[n["referencedMemberDecl"]].get("kind") == "VarDecl" and node_type(n).kind == "int" and node_type(n).const:
+            return self.static_const(n, ctx, n["referencedMemberDecl"])
         if k == "MemberExpr":
             loc = self.lvalue(n, ctx)
             return self.read(ctx, loc, n), ctx.types[loc]
@@ -2000,6 +2043,23 @@ class FuncTranslator:
         if k in ("CallExpr", "CXXMemberCallExpr", "CXXOperatorCallExpr"):
             return self.call(n, ctx)
         self.fail("unsupported expression", n)
+
+    def static_const(self, n, ctx, vid=None):
+        """a `static constexpr`/`const` integer with an initialiser (class constant, namespace constant)"""
+        vid = vid or n["referencedDecl"]["id"]
+        d = self.ix.byid.get(vid)
+        init = [c for c in (d or {}).get("inner", []) if c.get("kind") and not c["kind"].endswith("Attr")] if d else []
+        if d is None or d.get("kind") != "VarDecl" or len(init) != 1 or not (d.get("constexpr") or node_type(d).const):
+            self.fail("constant whose initialiser is not available", n)
+        self.const_depth = getattr(self, "const_depth", 0) + 1
+        if self.const_depth > 8:
+            self.fail("constants nested too deeply", n)
+        try:
+            v, vt = self.ev(init[0], Ctx())
+        finally:
+            self.const_depth -= 1
+        t = node_type(d)
+        return self.convert(v, vt, t, n), t
 
     def ev_ptr(self, n, ctx):
         """pointwise mode: the element (at the loop index) of the array a pointer expression points to"""
@@ -2181,7 +2241,7 @@ def generate(repo, build_dir, workdir, whitelist=None):
     for w in whitelist:
         q = (w["cls"] + "::" if w.get("cls") else "") + w["fn"]
         try:
-            decl = ix.find_function(w.get("cls"), w["fn"], w.get("params"))
+            decl = ix.find_function(w.get("cls"), w["fn"], w.get("params"), w.get("targs"))
             tr.translate(decl)
         except XlateError as ex:
             failed.append((q, str(ex)))
